@@ -69,6 +69,12 @@ class GotranCCodePrinter(C99CodePrinter):
             value = f"({value})"
         return value
 
+    def _print_Abs(self, expr):
+        # sympy prints the absolute value of an integer valued expression, e.g.
+        # abs(floor(x)), with the integer function abs, which converts the double
+        # to int (undefined for nan and values beyond the range of int)
+        return f"fabs({self._print(expr.args[0])})"
+
     def _print_BooleanTrue(self, expr):
         # Print the boolean constants as integers (a variable can be called 'true')
         return "1"
